@@ -21,7 +21,7 @@ from .. import tlc, mbt, trace, tlaval
 from ..common import Verdict, use_repo, REPO, SEED
 
 # ------------------------------------------------------------------------------------------------ configurations
-ALLK = ['w', 'e', 'p', 'm', 'u', 'n', 'c', 's', 'i', 'k', 'b', 'f', 'g', 'h']
+ALLK = ['w', 'e', 'p', 'm', 'u', 'n', 'l', 'c', 's', 'i', 'k', 'b', 'f', 'g', 'h']
 
 
 def S(*xs):
@@ -32,7 +32,7 @@ NONE = 100            # how a configuration file writes None for indent / width
 BASE = dict(Indents=S(NONE), Widths=S(NONE), LineBreaks=S('N'), Encodings=S('N'), Streams=S('none'), ExplStart=S(False),
             ExplEnd=S(False), Versions=S('N'), TagSets=S('N'), Canon=S(False), Unicode=S(False), Apis=S('dump'),
             ScalarKinds=S('w'), CollKinds=S('BS', 'FS', 'BM', 'FM'), Anchors='FALSE', ExplicitTags='FALSE',
-            MaxEvents=6, MaxDepth=3, MaxDocs=1)
+            LongClasses=S(), LongLens=S(), LongStyles=S('P'), FixD12='FALSE', MaxEvents=6, MaxDepth=3, MaxDocs=1)
 ALLIND = S(NONE, 0, 1, 2, 3, 4, 5, 6, 7, 8, 9, 10)
 ALLWID = S(NONE, 0, 1, 5, 20, 80)
 CONFIGS = {
@@ -74,6 +74,15 @@ CONFIGS = {
                     ScalarKinds=S('w', 'e', 'm', 'u'), Anchors='TRUE', ExplicitTags='TRUE', MaxEvents=3, MaxDepth=2),
     'canon+':  dict(BASE, Indents=S(NONE, 4), Widths=S(NONE, 5), Canon=S(True), Unicode=S(False, True),
                     ScalarKinds=S('w', 'e', 'm', 'u', 'n'), Anchors='TRUE', ExplicitTags='TRUE', MaxEvents=4, MaxDepth=2),
+    # longkeys: long lexemes (macro-symbols) around the two length constants that decide whether a key may be a simple key -
+    # the emitter's 128 (anchor + tag + raw scalar) and the reader's 1024 (characters as written) - x character class
+    # (ASCII, BMP non-ASCII, astral, escaped control, quote) x requested style x allow_unicode, as root / item / block key / flow key
+    'longkeys':  dict(BASE, Unicode=S(False, True), LongClasses=S('a', 'v', 'U', 'x', 'q'), LongStyles=S('P', 'S', 'D'),
+                      LongLens=S(102, 103, 120, 122, 123, 127, 128, 130, 1000, 1013, 1014, 1018, 1019, 1022, 1023, 1024, 1030),
+                      ScalarKinds=S(), CollKinds=S('BS', 'BM', 'FM'), MaxEvents=3, MaxDepth=1),
+    'longkeys+': dict(BASE, Unicode=S(False, True), LongClasses=S('a', 'v', 'U', 'x', 'q'), LongStyles=S('P', 'S', 'D'),
+                      LongLens=S(*(list(range(100, 105)) + list(range(120, 131)) + list(range(168, 173)) + list(range(253, 258)) + list(range(1000, 1031)))),
+                      ScalarKinds=S(), CollKinds=S('BS', 'BM', 'FS', 'FM'), ExplicitTags='TRUE', MaxEvents=3, MaxDepth=1),
     # full: a tiny structure space x the FULL option product (design check + replay)
     'full':    dict(BASE, Indents=ALLIND, Widths=ALLWID, LineBreaks=S('N', 'CR', 'LF', 'CRLF', 'J'),
                     Encodings=S('N', 'utf-8', 'utf-16-le', 'utf-16-be'), Streams=S('none', 'text', 'binary'),
@@ -82,8 +91,8 @@ CONFIGS = {
                     MaxEvents=1, MaxDepth=0),
 }
 # 'full' is a design check only (no replay): the full option product over the smallest structure
-TIERS = {'quick': ['nest', 'scalars', 'keys', 'width', 'docs', 'enc', 'canon'],
-         'thorough': ['nest+', 'scalars+', 'keys+', 'width+', 'docs+', 'enc+', 'canon+', 'full']}
+TIERS = {'quick': ['nest', 'scalars', 'keys', 'longkeys', 'width', 'docs', 'enc', 'canon'],
+         'thorough': ['nest+', 'scalars+', 'keys+', 'longkeys+', 'width+', 'docs+', 'enc+', 'canon+', 'full']}
 
 # ------------------------------------------------------------------------------------------------ concretisation tables
 WORDS = 'aaaa bbbb cccc dddd eeee ffff'
@@ -94,7 +103,8 @@ REPS = {   # first entry = the text the model's class stands for (exact L predic
     'p': [WORDS, 'lorem ipsum dolor sit amet consectetur adipiscing', 'x y z', 'one two three four five six seven eight nine ten ' * 3 + 'end'],
     'm': ['a\na', 'first line\nsecond line', 'a\n\nb', 'x\ny\nz'],
     'u': ['\u00e9', '\u65e5\u672c\u8a9e', '\U0001F600', 'na\u00efve caf\u00e9', '\u00a0', '\ud7ff\ue000\ufffd'],
-    'n': ['a\x85a', 'a\u2028a', 'a\u2029a', 'a\x85\u2028b'],
+    'n': ['a\x85a', 'x\x85y', 'a\x85b\x85c'],
+    'l': ['a\u2028a', 'a\u2029a', 'a\u2028\u2029b'],
     'c': ['\x07', '\x00', 'a\tb', '\x1b[0m', 'a\rb', 'a\r\nb', '\ufeff', '\x7f', '\x9f', 'a\r'],
     's': [' a', '  lead', ' x y'],
     'i': ['!a', '&a', '*a', '#a', '%a', '@a', '`a', '|a', '>a', '{a', '[a'],
@@ -105,6 +115,9 @@ REPS = {   # first entry = the text the model's class stands for (exact L predic
     'h': ['a\na', 'x\ny\nz', 'no final\nbreak'],
 }
 STYLE = {'b': '|', 'g': '|', 'h': '|', 'f': '>'}
+# long lexemes: one character repeated n times; the first representative is the one L's escape lengths are exact for
+LONG = {'a': ['k', 'Z', '7'], 'v': ['\u0436', '\u65e5', '\u0100', '\ud7ff'], 'U': ['\U0001F600', '\U00010000', '\U0010fffe'],
+        'x': ['\x07', '\x01', '\x7f', '\x1b'], 'q': ['"']}
 TAGS = {'N': None, 'T1': {'!x!': 'tag:x.org,2002:'}, 'T2': {'!x!': 'tag:x.org,2002:', '!y!': '!local-'},
         'TU': {'!u!': 'tag:\u00fc.org,2002:'}}
 LB = {'N': None, 'CR': '\r', 'LF': '\n', 'CRLF': '\r\n'}
@@ -228,8 +241,39 @@ def scan_structure(yaml, text, lines):
     return entries, marks, outcome
 
 
+def reject_class(text, e):
+    """why does the library's (Python) reader reject the text?  key item of clause-a violations only.
+    'simple key ... written characters' = the ':' of a key comes more than 1024 characters after the key's start, where the
+    scanner no longer takes it for a simple key; raw = length of the key scalar itself (the emitter's own rule admits a
+    simple key only below 128)"""
+    m = getattr(e, 'problem_mark', None)
+    problem = str(getattr(e, 'problem', '') or '')
+    if m is None or not (problem.startswith('mapping values are not allowed') or "got ':'" in problem or "expected ':'" in problem
+                         or 'could not find expected' in problem):
+        return 'other: ' + problem[:60]
+    lines = split_lines(text)
+    if m.line >= len(lines):
+        return 'other: ' + problem[:60]
+    prefix = lines[m.line][0][:m.column]
+    key = re.sub(r'^[\s\-?\[{,]*((&[\w-]+|![^\s]*)\s+)*', '', prefix)
+    if len(key) <= 1024:
+        return 'other: ' + problem[:60]
+    if key.startswith('"'):
+        toks = canon_lex(key)
+        raw = len(unhex(toks[0][1])) if toks and toks[0][0] == 'SCALAR' else len(key)
+    elif key.startswith("'"):
+        raw = len(key.rstrip()[1:-1].replace("''", "'"))
+    else:
+        raw = len(key.rstrip())
+    return 'simple key of %s raw characters is longer than 1024 written characters' % ('< 128' if raw < 128 else '>= 128')
+
+
 def hexs(s):
     return '.'.join('%X' % ord(c) for c in s)
+
+
+def unhex(s):
+    return ''.join(chr(int(x, 16)) for x in s.split('.')) if s else ''
 
 
 # -- lexer of the canonical form (written from the form, see Canonical.tla; independent of scanner.py and emitter.py)
@@ -417,6 +461,8 @@ def observe(yaml, call, o, ndocs, sink):
         except yaml.YAMLError as e:
             obs['reread'].append('yamlerror')
             aux['reread'].append('%s: %s' % (L.__name__, str(e)[:300]))
+            if L is yaml.Loader and 'reject' not in aux:
+                aux['reject'] = reject_class(text, e)
         except Exception as e:
             obs['reread'].append('exception')
             aux['reread'].append('%s: %s: %s' % (L.__name__, type(e).__name__, str(e)[:300]))
@@ -447,9 +493,14 @@ def mktrace(o, api, obs, text, events):
 def make_builders(yaml):
     E, N = yaml.events, yaml.nodes
 
-    def pick(kind, base, rnd):
+    def pick(kind, base, rnd, e=None):
+        if e is not None and e['n'] > 0:
+            return (LONG[kind][0] if base else rnd.choice(LONG[kind])) * e['n']
         reps = REPS[kind]
         return reps[0] if base else rnd.choice(reps)
+
+    def style_of(e):
+        return {'P': None, 'S': "'", 'D': '"'}[e['y']] if e['n'] > 0 else STYLE.get(e['s'])
 
     def events(evs, o, base, rnd, enc):
         out = [E.StreamStartEvent(encoding=enc)]
@@ -472,7 +523,7 @@ def make_builders(yaml):
                     out.append(E.ScalarEvent(None, None, (True, False), ''))
                 else:
                     out.append(E.ScalarEvent(anchor, YEXP if e['t'] else YSTR, (not e['t'] and s != 'e', not e['t']),
-                                             pick(s, base, rnd), style=STYLE.get(s)))
+                                             pick(s, base, rnd, e), style=style_of(e)))
             elif k == 'SequenceStart':
                 out.append(E.SequenceStartEvent(anchor, YEXP if e['t'] else YSEQ, not e['t'], flow_style=e['f']))
             elif k == 'MappingStart':
@@ -513,7 +564,7 @@ def make_builders(yaml):
                 if k == 'Alias':
                     return root[0]
                 if k == 'Scalar':
-                    return N.ScalarNode(YEXP if e['t'] else YSTR, pick(e['s'], base, rnd), style=STYLE.get(e['s']))
+                    return N.ScalarNode(YEXP if e['t'] else YSTR, pick(e['s'], base, rnd, e), style=style_of(e))
                 if k == 'SequenceStart':
                     n = N.SequenceNode(YEXP if e['t'] else YSEQ, [], flow_style=e['f'])
                     if root[0] is None:
@@ -541,7 +592,7 @@ def make_builders(yaml):
         out, flags = [], []            # flags: (flow flag, is leaf collection) per collection
         for doc in split_docs(evs):
             has_alias = any(e['k'] == 'Alias' for e in doc)
-            if doc[0]['a'] != has_alias or any(e['t'] for e in doc) or any(e['k'] == 'Scalar' and e['s'] in ('z', 'b', 'f', 'g', 'h') for e in doc):
+            if doc[0]['a'] != has_alias or any(e['t'] for e in doc) or any(e['k'] == 'Scalar' and (e['s'] in ('z', 'b', 'f', 'g', 'h') or e['y'] != 'P') for e in doc):
                 raise NotExpressible
             pos = [0]
             root = [None]
@@ -555,7 +606,7 @@ def make_builders(yaml):
                         raise NotExpressible
                     return root[0], True
                 if k == 'Scalar':
-                    return pick(e['s'], base, rnd), False
+                    return pick(e['s'], base, rnd, e), False
                 if key:
                     raise NotExpressible           # a collection as a key has no plain Python counterpart with the same tag
                 if k == 'SequenceStart':
@@ -603,7 +654,8 @@ def model_prediction(st, best_break):
         lines.append({'ind': cur['ind'], 'brk': 'EOF', 'cls': sorted(cur['cls'])})
     entries = [[e['k'], e['line'], e['col'], e['first'], e['ind']] for e in em['entries']]
     marks = [[m['k'], m['a'], m['b']] for m in em['marks'] if m['k'] != 'X']
-    return {'lines': lines, 'entries': entries, 'marks': marks, 'rtype': 'str' if em['enc'] == 'N' else 'bytes', 'bom': em['bom']}
+    return {'lines': lines, 'entries': entries, 'marks': marks, 'rtype': 'str' if em['enc'] == 'N' else 'bytes', 'bom': em['bom'],
+            'unreadable': any(k['len'] > 1024 or not k['same'] for k in em['skeys'])}
 
 
 def drift(pred, obs, aux, nel):
@@ -615,6 +667,10 @@ def drift(pred, obs, aux, nel):
     real = [{'ind': l['ind'], 'brk': 'NEL' if l['brk'] in ('NEL', 'LS', 'PS') else l['brk'], 'cls': norm_cls(l['cls'])} for l in aux['lines']]
     if real != pred['lines']:
         return 'lines'
+    if pred['unreadable'] != (obs['reread'][:1] != ['ok']):
+        return 'readability of a simple key (L says %s)' % ('too long for the reader' if pred['unreadable'] else 'readable')
+    if pred['unreadable']:
+        return None                       # the re-scan stops at the key: no token positions to compare
     if [e[:5] for e in aux['entries']] != pred['entries']:
         return 'entries'
     tagfix = [[m[0], m[1], m[2].replace('\u00fc', 'U')] for m in aux['marks'] if m[0] != 'X']
@@ -730,7 +786,7 @@ def replay(states, extra):
             if h not in res['traces']:
                 res['traces'][h] = (t, {'config': cfgname, 'api': api, 'dumper': D, 'events': compact(evs), 'evs': evs, 'options': st['opt'],
                                         'text': text if text is None or len(text) < 600 else text[:600] + '...', 'exc': aux['exc'],
-                                        'reread': aux['reread'], 'kw': {k: repr(v) for k, v in kwargs(o, random.Random(0), api == 'emit').items()}})
+                                        'reread': aux['reread'], 'reject': aux.get('reject', ''), 'kw': {k: repr(v) for k, v in kwargs(o, random.Random(0), api == 'emit').items()}})
             res.setdefault('count', {})
             res['count'][h] = res['count'].get(h, 0) + 1
             if base and pred is not None:
@@ -756,7 +812,7 @@ def compact(evs):
     for e in evs:
         k = e['k']
         if k == 'Scalar':
-            out.append('=' + e['s'] + ('!' if e['t'] else ''))
+            out.append('=' + e['s'] + ('*%d%s' % (e['n'], e['y']) if e['n'] else '') + ('!' if e['t'] else ''))
         elif k in ('SequenceStart', 'MappingStart'):
             out.append(('&' if e['a'] else '') + ('!' if e['t'] else '') + ('[' if k[0] == 'S' else '{') + ('f' if e['f'] else 'b'))
         elif k == 'Alias':
@@ -816,6 +872,8 @@ def random_options(rnd, emit=False):
 SCALARS = [x for k in REPS for x in REPS[k]] + ['x y z', 'trail ', ' ', '- x', '? y', 'k: v', 'a #c', '---', '...', "it's", '"q"', '\\', 'null',
                                                 '1', '1.5', 'yes', '~', '2001-01-01', '<<', '=', 'a: b: c', 'word ' * 40, '\u00e9' * 90,
                                                 'a\n b', '\n', '\n\n', 'a\n', ' \n', 'x\n \ny', '\U0001F600 \U0001F601', 'a\u2028 b', '\x85x', 'x\x85',
+                                                '\U0001F600' * 110, '\u0436' * 125, '\u0436' * 200, 'k' * 1023, 'k' * 127, '\x01' * 126, '"' * 126,
+                                                '\u65e5' * 1019, "'" * 520,
                                                 True, False, None, 3, -7, 1.5, 10 ** 20, b'bytes \x00\xff' * 12, b'']
 
 
@@ -961,7 +1019,7 @@ def random_work(args):
                 h = hashlib.md5(json.dumps(t, sort_keys=True).encode()).hexdigest()
                 traces.setdefault(h, (t, {'source': 'random values', 'seed': sd, 'dumper': D, 'kw': {k: repr(v) for k, v in kw.items()},
                                           'docs': repr(docs)[:600], 'text': text if text is None or len(text) < 600 else text[:600] + '...',
-                                          'exc': aux['exc'], 'reread': aux['reread']}))
+                                          'exc': aux['exc'], 'reread': aux['reread'], 'reject': aux.get('reject', '')}))
         else:
             o = random_options(rnd, emit=True)
             if kind == 'events':
@@ -982,7 +1040,7 @@ def random_work(args):
                                           'empty_plain_root': empty_plain_root(body),
                                           'events': ' '.join(type(e).__name__[:-5] for e in body)[:400],
                                           'text': text if text is None or len(text) < 600 else text[:600] + '...', 'exc': aux['exc'],
-                                          'reread': aux['reread']}))
+                                          'reread': aux['reread'], 'reject': aux.get('reject', '')}))
     return traces, calls
 
 
@@ -1005,10 +1063,6 @@ def features(t, meta):
     return {'empty_plain_root': bool(meta.get('empty_plain_root')),'dumper': 'libyaml' if meta['dumper'].startswith('C') else 'python',
             'tags_nonascii_prefix': any(any(ord(c) > 127 for c in p) for _, p in o['tags']),
             'canonical': o['canon'], 'allow_unicode': o['au'], 'encoding': o['enc'], 'stream': o['stream']}
-
-
-def unhex(s):
-    return ''.join(chr(int(x, 16)) for x in s.split('.')) if s else ''
 
 
 def scalar_difference(t):
@@ -1047,14 +1101,26 @@ def judge_all(v, traces, tag):
             key['exception'] = meta.get('exc', '').split(':')[0]
         if key['clause'] == 'g':
             key['difference'] = scalar_difference(t)
+        if key['clause'] == 'a':
+            key['reject'] = meta.get('reject', '')
         v.violation(key, {'why': why, 'at': at, 'options': t['o'], 'call': meta, 'observation': t['obs']})
     return states
 
 
+def detect_fix_d12():
+    """which variant of check_simple_key does L model?  (L only: it keeps the generated predictions meaningful on a tree with and
+    without fix_proposals/D12.diff; no verdict depends on it).  Probe through the public API: a key of 110 astral characters."""
+    v = os.environ.get('VERIF_C15_FIXD12')
+    if v:
+        return v == '1'
+    yaml = use_repo()
+    return yaml.dump({'\U0001F600' * 110: 1}, Dumper=yaml.SafeDumper).startswith('? ')
+
+
 def run_config(args):
-    name, workers = args
+    name, workers, fix = args
     return name, tlc.run('Format', cfg='MC_Format.cfg', dump=name not in DESIGN_ONLY, tag='C15_' + name.replace('+', 'x'), timeout=3000,
-                         coverage=False, workers=workers, heap=HEAP, constants=CONFIGS[name])
+                         coverage=False, workers=workers, heap=HEAP, constants=dict(CONFIGS[name], FixD12='TRUE' if fix else 'FALSE'))
 
 
 def job(args):
@@ -1092,7 +1158,8 @@ def main(tier, replay=None):
     names = TIERS[tier]
     par = 4
     with ThreadPoolExecutor(par) as ex:                       # the configurations are independent TLC runs
-        runs = dict(ex.map(run_config, [(n, max(2, PROCS // par)) for n in names]))
+        fix12 = detect_fix_d12()
+        runs = dict(ex.map(run_config, [(n, max(2, PROCS // par), fix12) for n in names]))
     states = trans = 0
     per_config, jobs = {}, []
     for name in names:
@@ -1161,6 +1228,7 @@ def main(tier, replay=None):
                      'dumpers; non-trivial = the stream contains a collection; every projected output is judged by TLC (Trace_Format: '
                      'H_Format + Canonical); identical (options, observation) pairs are judged once',
              'actions_fired': acts, 'calls_per_api': apis, 'configs': per_config, 'bounds': {n: CONFIGS[n] for n in names},
+             'L_variant': 'check_simple_key %s the written-length bound (FixD12 = %s)' % ('with' if fix12 else 'without', fix12),
              'samples': samples[:6], 'random': {'values': nv, 'event_streams': ne, 'corpus_reemissions': nc}}
     v.assumptions = ['strings range over Unicode scalar values (no lone surrogates); option values are valid (version 1.1 / 1.2, well-formed tag '
                      'handles); a bytes stream is given an encoding; emit() has no encoding option',
